@@ -1449,6 +1449,8 @@ def fam_twin(tier):
                     ln = nmea.line(payload=rnd.choice(corpus.PAYLOADS)[0], sid=kw["sid"])
                     if rnd.random() < 0.4:   # fragment number 0: rejected whatever the state (must leave no trace either)
                         ln = nmea.line(n=rnd.choice([kw["n"], 1, 3]), k=0, sid=rnd.choice([kw["sid"], None, 7]), payload=rand_armor(rnd, 4))
+                    elif rnd.random() < 0.3:  # one sentence, odd number: unfragmented whatever its number says
+                        ln = nmea.line(n=1, k=rnd.choice([2, 3, kw["k"], kw["k"] + 1, 255]), sid=rnd.choice([kw["sid"], None]), payload=rand_armor(rnd, 6))
                 else:
                     ln = nmea.line(payload=rand_armor(rnd, rnd.randrange(1, 20)), fill=rnd.randrange(6))
                 sc.line(ln, 0, rnd.randrange(2), tag="R:")
